@@ -112,6 +112,9 @@ func (P *Program) VerifyFunc(ct *Contract, fn *ssa.Function) (res *FuncResult) {
 	vc.Assume("(>= brk0 0)")
 	f := ex.newFrame(fn)
 	f.contract = ct
+	ex.topFrame = f
+	ex.aim = ct.AimCheck
+	vc.opaqueArith = ct.OpaqueArith
 	// parameters
 	var args []Val
 	for _, p := range fn.Params {
